@@ -50,7 +50,7 @@ static void qWell(std::ostringstream& o, const Well& w, const SummaryState& st) 
       << " pred=" << w.predictionMode() << " ref=" << (w.hasRefDepth() ? hexd(w.getRefDepth()) : "-") << " ef=" << hexd(w.getEfficiencyFactor()) << " gr=" << hexd(w.getGuideRate()) << "/" << (int)w.getGuideRatePhase() << "/" << hexd(w.getGuideRateScalingFactor())
       << " avail=" << w.isAvailableForGroupControl() << " xflow=" << w.getAllowCrossFlow() << " autoshut=" << w.getAutomaticShutIn() << " phase=" << (int)w.getPreferredPhase() << " drad=" << hexd(w.getDrainageRadius())
       << " seq=" << w.seqIndex() << " first=" << w.firstTimeStep() << " msw=" << w.isMultiSegment() << " vfp=" << w.vfp_table_number() << " pvt=" << w.pvt_table_number() << " fip=" << w.fip_region_number()
-      << " solv=" << hexd(w.getSolventFraction()) << " injT=" << (w.hasInjTemperature() ? hexd(w.inj_temperature()) : "-") << " hasInj=" << w.hasInjected() << " hasProd=" << w.hasProduced();   // (Well::wListNames() is declared but not defined in the library)
+      << " solv=" << hexd(w.getSolventFraction()) << " injT=" << ((w.isInjector() && w.hasInjTemperature()) ? hexd(w.inj_temperature()) : "-") << " hasInj=" << w.hasInjected() << " hasProd=" << w.hasProduced();   // (Well::wListNames() is declared but not defined in the library)
     if (w.isProducer()) {
         const auto& p = w.getProductionProperties();
         o << " P{cm=" << (int)p.controlMode << " pm=" << p.predictionMode << " vfp=" << p.VFPTableNumber << " alq=" << p.ALQValue.is<double>()
@@ -310,7 +310,7 @@ int main(int argc, char** argv) {
                 gdeck::Opts o;
                 gdeck::Generator gen(rng, o);
                 gdeck::Model m = gen.generate();
-                m.summarySection = "WOPT\n/\nGOPT\n/\nFWCT\nWWCT\n/\nROIP\n/\nBPR\n 1 1 1 /\n/\nCOPR\n 'W1' /\n/\n";
+                m.summarySection = "WOPT\n/\nGOPT\n/\nFWCT\nWWCT\n/\nROIP\n/\nBPR\n 1 1 1 /\n/\n" + (m.wells.empty() ? std::string() : "COPR\n '" + m.wells[0].name + "' /\n/\n");
                 witness = m.text();
                 for (auto& st : m.steps) for (auto& k : st.kws) rep.cover("schedule_keyword", k.name);
                 ParseContext pc; ErrorGuard eg;
